@@ -91,6 +91,9 @@ def run_core(cases, shards=8, fuel=None, timeout_ms=10000, spec=False, spec_fuel
             else:
                 dis.append({"layer": "AST-HOLE", "case": i, "go": g["ast"][:300]})
             continue
+        if mres[mk].startswith("(resource"):
+            stats["model_resource"] = stats.get("model_resource", 0) + 1     # the model could not evaluate the case within its memory limit
+            continue
         m = model.parse_sexp(mres[mk])
         if m[0] == "error":
             dis.append({"layer": "DRIVER", "case": i, "detail": mres[mk], "ast": g["ast"][:300]})
